@@ -72,6 +72,13 @@ SPECS = [
          ensures=["trace('e1', 'e2')"],
          raises={'*': {'ensures': ["raised('e1') or raised('e2')"]}},
          serves=['C12', 'C11']),
+    dict(id='S-CRLF-positions',
+         # a template with Windows line ends: expression text, line and column in the token table are
+         # those of the document with each CR LF taken as one line break (static checks token_table[...])
+         text='A<p>a</p>\r\n<p>b</p>\r\n<p>${e1}</p>\r\n <i tal:content="e2"/>B',
+         ensures=["trace('e1', 'e2')"],
+         raises={'*': {'ensures': ["raised('e1') or raised('e2')"]}},
+         serves=['C12', 'C11']),
     dict(id='S-TextMode', text='a ${e1} $$ <b> &amp; x', cls='PageTextTemplate',
          ensures=[
              "evals(1) == 1",
